@@ -1,4 +1,5 @@
 import VelaVerif.Lemmas.Rewrites2
+import VelaVerif.Props.C01
 /-!
 # C01 — the lowerings of `Model/Rewrites2.lean` preserve what the operator computes
 
@@ -152,5 +153,130 @@ example :
 example : calcUpscaledPadding true 3 3 1 1 2 3 2 2 = some (2, 2, 0, 0) ∧ tconvRefPad true 4 2 3 = 0 ∧
     calcUpscaledPadding true 4 5 1 1 2 3 2 2 = some (2, 3, 1, 1) ∧ tconvRefPad true 4 2 4 = 1 ∧
     lowerTconv false 3 3 2 2 4 4 9 9 = some ⟨⟨true, 1, 1⟩, (2, 2, 1, 1)⟩ := by decide
+
+/-! ## 9. Grouped convolution = split, convolutions, concatenation -/
+
+/-- **CONV_2D with groups.** For `G > 1` groups of `Cg` input channels and `Og` filters each, and every output channel
+    `oc < G * Og`: the model of `convert_conv_groups` gives group `g = oc / Og` the IFM read offset `g * Cg` and the filters
+    `[g * Og, (g + 1) * Og)`; the concatenation of the `G` partial outputs (each `Og` deep) holds at channel `oc` the
+    channel `oc % Og` of part `g` (`locate`, the reference concatenation); and that channel's accumulator — convolution of the
+    IFM slice with filter `g * Og + oc % Og` of the original weights — is the accumulator of the reference grouped convolution,
+    at every position, for all tensors, kernels, strides, dilations and paddings. (Bias and per-channel scales are sliced
+    with the same indices.) -/
+theorem conv_groups_eq (G Cg Og : Nat) (hG : 1 < G) (hOg : 0 < Og) (H W : Nat) (ifm : Nat → Nat → Nat → Int) (kh kw : Nat)
+    (wgt : Nat → Nat → Nat → Nat → Int) (sh sw dh dw pt pl : Nat) (inOff : Int) (oy ox oc : Nat) (hoc : oc < G * Og) :
+    ∃ cg, convertConvGroups G (G * Cg) (G * Og) = some cg ∧ cg.ifmDepthCg = Cg ∧ cg.filtersCg = Og ∧
+      cg.groups[oc / Og]? = some (oc / Og * Cg, oc / Og * Og, (oc / Og + 1) * Og) ∧
+      locate (List.replicate G Og) oc = some (oc / Og, oc % Og) ∧
+      groupPartAcc H W Cg ifm kh kw wgt sh sw dh dw pt pl inOff (oc / Og * Cg) (oc / Og * Og) oy ox (oc % Og) =
+        groupConvAcc H W Cg Og ifm kh kw wgt sh sw dh dw pt pl inOff oy ox oc := by
+  have hG0 : 0 < G := by omega
+  have e1 : G * Cg / G = Cg := Nat.mul_div_cancel_left Cg hG0
+  have e2 : G * Og / G = Og := Nat.mul_div_cancel_left Og hG0
+  have hg : oc / Og < G := (Nat.div_lt_iff_lt_mul hOg).mpr hoc
+  have hc : convertConvGroups G (G * Cg) (G * Og) =
+      some ⟨Cg, Og, (List.range G).map fun i => (i * Cg, i * Og, (i + 1) * Og)⟩ := by
+    simp only [convertConvGroups, if_neg (by omega : ¬ G ≤ 1), e1, e2]
+  refine ⟨_, hc, ?_, ?_, ?_, locate_replicate G Og oc hOg hoc, ?_⟩
+  · rfl
+  · rfl
+  · simp [hg]
+  · unfold groupPartAcc groupConvAcc
+    have : oc / Og * Og + oc % Og = oc := by
+      rw [Nat.mul_comm]; exact Nat.div_add_mod oc Og
+    rw [this]
+
+example : convertConvGroups 3 12 6 = some ⟨4, 2, [(0, 0, 2), (4, 2, 4), (8, 4, 6)]⟩ ∧ convertConvGroups 1 12 6 = none := by decide
+example :
+    let ifm : Nat → Nat → Nat → Int := fun y x c => (y * 11 + x * 5 + c : Nat) - 20
+    let wgt : Nat → Nat → Nat → Nat → Int := fun oc ky kx ic => (oc : Int) * 3 - ky + kx * 2 - ic
+    (List.range 6).map (fun oc => groupPartAcc 3 3 4 ifm 2 2 wgt 1 1 1 1 0 0 2 (oc / 2 * 4) (oc / 2 * 2) 1 1 (oc % 2)) =
+    (List.range 6).map (fun oc => groupConvAcc 3 3 4 2 ifm 2 2 wgt 1 1 1 1 0 0 2 1 1 oc) := by decide
+
+/-! ## 10. MEAN = all-ones depthwise convolution(s), int32 sums, one `Mul` -/
+
+/-- **MEAN, splitting into several convolutions**: the partial sums of the all-ones depthwise convolutions the lowering creates
+    (`meanChunks`: kernel heights `height_per_conv`, the last one the remainder, read offsets `i * height_per_conv`), added up
+    by the chain of `Add`s, are the sum over the whole `h × w` window — for every tensor, every `h`, `w`, `height_per_conv > 0`.
+    (The limits 4096 / 64 that choose `height_per_conv` are hardware limits, not needed for the equality.) -/
+theorem mean_split_sum_eq (ifm : Nat → Nat → Int) (zp : Int) (h w hpc : Nat) (hh : 0 < h) (hp : 0 < hpc) :
+    splitSum ifm zp w (meanChunks h hpc) = windowSum ifm zp 0 h w := by
+  rw [meanChunks_eq h hpc hh hp, splitSum_append, splitSum_full]
+  simp only [splitSum, Int.add_zero]
+  generalize hk : (h + hpc - 1) / hpc - 1 = k
+  have hk1 : k * hpc ≤ h := by
+    have : ((h + hpc - 1) / hpc) * hpc ≤ h + hpc - 1 := Nat.div_mul_le_self _ _
+    have hnum : 0 < (h + hpc - 1) / hpc := Nat.div_pos (by omega) hp
+    obtain ⟨j, hj⟩ : ∃ j, (h + hpc - 1) / hpc = j + 1 := ⟨(h + hpc - 1) / hpc - 1, by omega⟩
+    rw [hj, Nat.succ_mul] at this
+    have : j = k := by omega
+    subst this; omega
+  have := windowSum_split ifm zp 0 (k * hpc) (h - k * hpc) w
+  rw [Nat.zero_add, show k * hpc + (h - k * hpc) = h by omega] at this
+  omega
+
+/-- **MEAN, `H × W` read as `1 × (H·W)`** (taken when `H > 64` and `H·W ≤ 4096`): the same memory, the same sum -/
+theorem mean_flat_sum_eq (ifm : Nat → Nat → Int) (zp : Int) (h w : Nat) (hw : 0 < w) :
+    windowSum ifm zp 0 h w = windowSum (fun _ i => ifm (i / w) (i % w)) zp 0 1 (h * w) := by
+  unfold windowSum
+  simp only [sumRange, Int.zero_add, Nat.zero_add]
+  rw [sumRange_mul h w]
+  apply sumRange_congr; intro r _
+  apply sumRange_congr; intro c hc
+  have e1 : (r * w + c) / w = r := by
+    rw [Nat.add_comm, Nat.add_mul_div_right _ _ hw, Nat.div_eq_of_lt hc, Nat.zero_add]
+  have e2 : (r * w + c) % w = c := by
+    rw [Nat.add_comm, Nat.add_mul_mod_self_right, Nat.mod_eq_of_lt hc]
+  rw [e1, e2]
+
+/-- **MEAN, the multiplier** `mult = (m << s) // n` (the arithmetic of `reference_integer_ops::Mean`): it is the floor of
+    `m · 2^s / n`, so `n · mult ≤ m · 2^s < n · mult + n` — the scaled sum `sum · mult / 2^s` differs from `sum · m / n` by less
+    than `|sum| / 2^s`. (This, and the two roundings of `MultiplyByQuantizedMultiplier`, is the whole approximation of the
+    lowering against the real-valued mean; the integer kernel itself is reproduced exactly, `mean_lowered_eq_ref`.) -/
+theorem mean_multiplier_bound (m : Int) (n s : Nat) (hn : 0 < n) :
+    (n : Int) * (m * (2 : Int) ^ s / (n : Int)) ≤ m * (2 : Int) ^ s ∧ m * (2 : Int) ^ s < (n : Int) * (m * (2 : Int) ^ s / (n : Int)) + n := by
+  generalize m * (2 : Int) ^ s = x
+  have hn' : (0 : Int) < n := by omega
+  have h1 := Int.mul_ediv_add_emod x n
+  have h2 := Int.emod_nonneg x (by omega : (n : Int) ≠ 0)
+  have h3 := Int.emod_lt_of_pos x hn'
+  constructor <;> omega
+
+/-- **MEAN, the final `Mul`**: the int32 product scaled by the NPU with TFLite rounding and the explicit shift `sv ≥ 31`
+    (`npuScaleTfl (sum · mult) 1 sv`, the form `Props/C01Wide.mul32_tfl_eq_srdhm` shows for an int32 `Mul`) is bit-exactly
+    `MultiplyByQuantizedMultiplier(sum, mult, 31 - sv)` of the TFLite integer MEAN kernel, outside the one saturating case. -/
+theorem mean_lowered_eq_ref (s mult : Int) (sv : Nat) (zpOut lo hi : Int) (hsv : 31 ≤ sv)
+    (hsat : ¬ (s = INT32_MIN ∧ mult = INT32_MIN)) :
+    meanLowered s mult sv zpOut lo hi = meanRefInt s mult (31 - (sv : Int)) zpOut lo hi := by
+  unfold meanLowered meanRefInt
+  rw [VelaVerif.Props.C01.npuScaleTfl_eq_mbqm _ 1 sv (by omega)]
+  congr 2
+  unfold mbqm
+  have hns : ¬ ((31 : Int) - (sv : Int) > 0) := by omega
+  simp only [hns, if_false, Int.pow_zero, Int.mul_one]
+  rw [srdhm_floor _ _ hsat, srdhm_floor _ _ (by intro c; have := c.2; simp [INT32_MIN] at this)]
+  simp only [Int.mul_one]
+
+/-- what `meanScale` returns: the floor multiplier for the shift `min (⌊log2 n⌋, 32, 31 + output_shift)` and the explicit shift
+    enlarged by it -/
+theorem meanScale_spec (m sv : Int) (n : Nat) (hn : 0 < n) (hs : 0 ≤ min (min ((log2Floor n : Nat) : Int) 32) (31 + (31 - sv))) :
+    meanScale m sv n = some (m * (2 : Int) ^ (min (min ((log2Floor n : Nat) : Int) 32) (31 + (31 - sv))).toNat / (n : Int),
+      sv + min (min ((log2Floor n : Nat) : Int) 32) (31 + (31 - sv))) := by
+  unfold meanScale
+  rw [if_neg (by omega)]
+  simp only []
+  rw [if_neg (by omega)]
+  congr 2
+  omega
+
+example : meanChunks 190 64 = [(0, 64), (64, 64), (128, 62)] ∧ meanChunks 128 64 = [(0, 64), (64, 64)] ∧ meanChunks 5 64 = [(0, 5)] := by decide
+example : (meanPlan [1, 190, 64, 1] [false, true, true, false]).map (·.convs) = some [(0, 64, 64, 64), (64, 64, 64, 64), (128, 62, 62, 64)] := by decide
+example : (meanPlan [1, 70, 8, 3] [false, true, true, false]).map (fun p => (p.ifmShape, p.convs)) = some ([1, 1, 560, 3], [(0, 1, 1, 560)]) := by decide
+example : (meanPlan [1, 7, 1, 16] [false, false, false, true]).map (fun p => (p.ifmShape, p.convs)) = some ([1, 7, 16, 1], [(0, 1, 7, 16)]) := by decide
+example : meanScale 1073741824 31 49 = some (1073741824 * 32 / 49, 36) := by decide
+example :
+    let ifm : Nat → Nat → Int := fun y x => ((y * 13 + x * 7) % 50 : Nat) - 20
+    splitSum ifm 3 4 (meanChunks 11 4) = windowSum ifm 3 0 11 4 := by decide
+example : meanLowered 12345 701172535 36 (-3) (-128) 127 = meanRefInt 12345 701172535 (-5) (-3) (-128) 127 := by decide
 
 end VelaVerif.Props.C01Rewrites2
